@@ -578,8 +578,8 @@ SECONDS of `now + duration`; `Status` deletes when `!now.Before(expiry)`, readin
 every call (it touches no ChainService field but `banStore`: no memo); `IsBanned` and `BanPeer` go
 through `ParseIPNet(addr, nil)` and the store with `BanDuration`; `BanPeer`
 disconnects `PeerByAddr(addr)` and then every peer of `s.Peers()` whose address
-parses (`ParseIPNet(sp.Addr(), nil)`) to the banned network; every other `BanPeer` call site passes one of
-the "provably invalid" reasons. -/
+parses (`ParseIPNet(sp.Addr(), nil)`) to the banned network; the other `BanPeer` calls (a set: robust against moving a call into a helper) pass
+exactly the three "provably invalid" reasons, and `GetBlock` bans for an invalid block. -/
 theorem C13_source_facts :
     Gen.Ban.ipv4Type = 0 ∧ Gen.Ban.ipv6Type = 1 ∧
     Gen.Ban.encodeNormalisesTo4 = true ∧ Gen.Ban.encodeElseTo16 = true ∧
@@ -597,9 +597,9 @@ theorem C13_source_facts :
     Gen.Ban.isBannedReturns = ["false", "false", "banStatus.Banned"] ∧
     Gen.Ban.isBannedFirstStmt = "ipNet,err:=banman.ParseIPNet(addr,nil)" ∧ Gen.Ban.banPeerUsesStore = true ∧ Gen.Ban.banPeerDisconnects = true ∧
     Gen.Ban.banPeerDisconnectsNetwork = true ∧
-    (∀ s, s ∈ Gen.Ban.banPeerSites → s ∈ ["query.go:banman.InvalidBlock", "blockmanager.go:banman.InvalidFilterHeader",
-      "blockmanager.go:banman.InvalidFilterHeaderCheckpoint"]) ∧
-    Gen.Ban.banPeerSites.length = 8 := by decide
+    Gen.Ban.banPeerReasons = ["blockmanager.go:banman.InvalidFilterHeader",
+      "blockmanager.go:banman.InvalidFilterHeaderCheckpoint", "query.go:banman.InvalidBlock"] ∧
+    Gen.Ban.getBlockBansInvalidBlock = true := by decide
 
 /-! ### Non-vacuity (ChainService level) -/
 /-- query before the ban under one spelling, ban under another (other port, built by hand as 4 bytes), query again -/
@@ -615,6 +615,12 @@ example : outs {} (exCs.map fun x => (x.1, x.2.toOp)) = [.notBanned, .ok, .banne
 example : (isBanned (run {} (exCs.map fun x => (x.1, x.2.toOp))) 50 exPeerA).2 = false := by decide
 
 /-! ### Non-vacuity (enforcement) -/
+/-- an IPv6 peer: the ban is reported for its address under another port, not for a neighbour in its /64 -/
+example :
+    let p6 : Peer := ⟨[32, 1, 13, 184, 0, 0, 0, 0, 0, 0, 0, 0, 0, 0, 0, 5], 18444⟩
+    let st := (stepNet {} 0 (.banPeer p6 5)).store
+    (isBanned st 10 ⟨p6.ip, 18445⟩).2 = true ∧
+    (isBanned st 10 ⟨[32, 1, 13, 184, 0, 0, 0, 0, 0, 0, 0, 0, 0, 0, 0, 6], 18444⟩).2 = false := by decide
 example : hasRequired 1101 = true ∧ hasRequired 1037 = false ∧ hasRequired 8 = false := by decide
 example : monoEv 0 exEvs := by simp [monoEv, exEvs]
 /-- regression: the former counterexample — B (same IP as A, other port) is dropped with A, C stays -/
